@@ -3,7 +3,10 @@
 Cases are JSON node trees (so that a replay file is self-contained):
   ['s', str] ['i', int] ['f', float.hex] ['b', hex] ['n'] ['B', 0|1] ['l', [nodes]] ['t', [nodes]]
   ['m', kind, [[keynode, valuenode], ...]]     kind: 0 dict, 1 OrderedDict, 2 MappingProxyType, 3 read-only Mapping subclass
-ops:  mdp  {'secret': str|None (None = call without the argument), 'd': node}
+  ['r', name]   a reference to case['defs'][name]: every reference to one name is THE SAME OBJECT (DAG-shaped arguments:
+                a mapping / list / str reachable twice or more, at one level or across depths); defs may refer to earlier defs
+ops:  mdp  {'secret': str|None (None = call without the argument), 'd': node, 'defs': {name: node} (optional),
+            'pre': [secrets] (optional: calls made on the same argument object before the observed one)}
       key  {'k': str}      the secret-key test alone, observed through mask_dict_password({k: 0}, 'M')
 """
 import sys, os, collections, collections.abc, types, inspect
@@ -32,25 +35,37 @@ class ROMapping(collections.abc.Mapping):
 
 KIND_NAMES = {0: 'dict', 1: 'OrderedDict', 2: 'MappingProxyType', 3: 'ROMapping'}
 
-def build(n):
+def build(n, defs=None, memo=None):
+    if memo is None: memo = {}
     t = n[0]
+    if t == 'r':
+        if n[1] not in memo: memo[n[1]] = build(defs[n[1]], defs, memo)
+        return memo[n[1]]
     if t == 's': return n[1]
     if t == 'i': return n[1]
     if t == 'f': return float.fromhex(n[1])
     if t == 'b': return bytes.fromhex(n[1])
     if t == 'n': return None
     if t == 'B': return bool(n[1])
-    if t == 'l': return [build(x) for x in n[1]]
-    if t == 't': return tuple(build(x) for x in n[1])
+    if t == 'l': return [build(x, defs, memo) for x in n[1]]
+    if t == 't': return tuple(build(x, defs, memo) for x in n[1])
     if t == 'm':
         d = {}
         for k, v in n[2]:
-            d[build(k)] = build(v)
+            d[build(k, defs, memo)] = build(v, defs, memo)
         if n[1] == 0: return d
         if n[1] == 1: return collections.OrderedDict(d)
         if n[1] == 2: return types.MappingProxyType(d)
         if n[1] == 3: return ROMapping(d)
     raise ValueError('bad node %r' % (n,))
+
+def expand(n, defs):
+    """the tree a node denotes (references replaced by what they name)"""
+    t = n[0]
+    if t == 'r': return expand(defs[n[1]], defs)
+    if t in ('l', 't'): return [t, [expand(x, defs) for x in n[1]]]
+    if t == 'm': return ['m', n[1], [[expand(k, defs), expand(v, defs)] for k, v in n[2]]]
+    return n
 
 def kind_of(o):
     if type(o) is dict: return 0
@@ -157,9 +172,12 @@ def impl(c):
             if r[k] == 'M' and type(r[k]) is str: return 'True'
             if r[k] == 0 and type(r[k]) is int: return 'False'
         return 'OTHER:' + repr(r)[:80]
-    obj = build(c['d'])
+    obj = build(c['d'], c.get('defs'))
     before = snapshot(obj)
     arg_ids = mapping_ids(obj, set())
+    for s in c.get('pre', []):          # earlier calls on the same argument object, other secrets
+        try: su.mask_dict_password(obj, s)
+        except Exception: pass
     try:
         r = su.mask_dict_password(obj) if c['secret'] is None else su.mask_dict_password(obj, c['secret'])
     except Exception as e:
@@ -183,7 +201,7 @@ def encode(c):
     if c['op'] == 'key':
         return ['key', c['k']]
     su = _su()
-    t = canon(build(c['d']))
+    t = canon(build(c['d'], c.get('defs')))      # a DAG is encoded as the tree it denotes
     secret = _secret_of(c)
     if not isinstance(secret, str): return None
     strs = sorted(set(strings_under_mappings(t, [])))
@@ -292,7 +310,7 @@ def oracle(c, io):
             return 'key %r: masked=%s, but it %s a sanitize key case-insensitively' % (c['k'], io, 'contains' if kv else 'does not contain')
         return None
     mutf, aliasf, out = io.split(' ', 2)
-    n = c['d']
+    n = expand(c['d'], c.get('defs'))
     if mutf != 'MUT:0': return 'the argument was modified by the call'
     if n[0] != 'm':
         return None if out == 'EXN:TypeError' else 'non-mapping argument gives %s instead of TypeError' % out[:80]
@@ -316,6 +334,7 @@ def oracle(c, io):
 def classify(c, io):
     if c['op'] == 'key': return 'key:' + io[:5]
     n = c['d']
+    if c.get('defs'): return 'mdp:dag%s' % (':exn' if ' EXN:' in io else '')
     return 'mdp:%s%s' % (KIND_NAMES.get(n[1], '?') if n[0] == 'm' else 'nonmapping', ':exn' if ' EXN:' in io else '')
 
 
@@ -468,6 +487,54 @@ def chain(rng, keys, depth, leafkey, leafval):
         n = ['m', rng.randrange(4), [[['s', rng.choice(keys) if rng.random() < 0.7 else 'nested'], n], [['s', 'user'], ['s', 'bob']]]]
     return n
 
+def dag_boundary(rng, keys):
+    """the same object referenced 2-3 times at one level and across depths: every mapping kind, empty and not;
+    shared lists / strings; a shared mapping that itself holds a shared mapping"""
+    S = lambda x: ['s', x]
+    R = lambda x: ['r', x]
+    for kd in range(4):
+        for inner in ([], [[S('token'), S('hunter2')], [S('user'), S("password='abc'")]]):
+            d = ['m', kd, inner]
+            for top_kd in (0, 3):
+                yield {'defs': {'d': d}, 'd': ['m', top_kd, [[S('a'), R('d')], [S('b'), R('d')]]]}
+                yield {'defs': {'d': d}, 'd': ['m', top_kd, [[S('password'), R('d')], [S('x'), R('d')], [['i', 3], R('d')]]]}
+                yield {'defs': {'d': d}, 'd': ['m', top_kd, [[S('a'), R('d')], [S('n'), ['m', kd, [[S('c'), R('d')]]]]]]}
+                yield {'defs': {'d': d}, 'd': ['m', top_kd, [[S('n'), ['m', 0, [[S('secret'), ['m', 1, [[S('c'), R('d')]]]]]]], [S('z'), R('d')]]]}
+            yield {'defs': {'d': d, 'e': ['m', (kd + 1) % 4, [[S('p'), R('d')], [S('q'), R('d')]]]},
+                   'd': ['m', 0, [[S('e1'), R('e')], [S('auth_token'), R('e')], [S('d'), R('d')]]]}
+    for leaf in (['l', [S('password=hunter2'), ['m', 0, [[S('secret'), S('x')]]]]], ['l', []], S("token = 'abc'"), ['b', '70617373'], ['t', [['i', 1]]]):
+        yield {'defs': {'v': leaf}, 'd': ['m', 0, [[S('a'), R('v')], [S('password'), R('v')], [S('n'), ['m', 2, [[S('c'), R('v')]]]]]]}
+
+def dag_case(rng, keys):
+    defs = {}; names = []
+    for i in range(rng.randint(1, 3)):
+        r = rng.random()
+        if r < 0.25: node = ['m', rng.randrange(4), []]
+        elif r < 0.75:
+            node = mapping(rng, keys, 1, 2, 3)
+            if names and rng.random() < 0.5:      # a shared mapping holding an earlier shared object (once or twice)
+                for j in range(rng.randint(1, 2)):
+                    node[2].append([['s', 'ref%d_%s' % (j, rng.choice(WORDS))], ['r', rng.choice(names)]])
+        elif r < 0.9: node = other_value(rng, keys, 0)
+        else: node = ['s', str_value(rng, keys)]
+        nm = 'd%d' % i; defs[nm] = node; names.append(nm)
+    def level(depth):
+        items = []; seen = set()
+        for _ in range(rng.randint(2, 5)):
+            ks = str_key(rng, keys) if rng.random() < 0.8 else None
+            kn = ['s', ks] if ks is not None else other_key(rng, keys)
+            hk = build(kn)
+            if hk in seen: continue
+            seen.add(hk)
+            r = rng.random()
+            if r < 0.6: vn = ['r', rng.choice(names)]
+            elif r < 0.8 and depth < 2: vn = level(depth + 1)
+            elif r < 0.9: vn = ['s', str_value(rng, keys)]
+            else: vn = other_value(rng, keys, depth)
+            items.append([kn, vn])
+        return ['m', rng.choice((0, 0, 1, 2, 3)), items]
+    return {'defs': defs, 'd': level(1)}
+
 VALUE_SAMPLES = [['s', 'hunter2'], ['s', ''], ['i', 5], ['n'], ['b', '68756e74657232'], ['l', [['s', 'hunter2']]], ['f', (1.5).hex()], ['B', 1],
                  ['t', [['i', 1]]], ['m', 0, []], ['m', 3, [[['s', 'user'], ['s', 'bob']]]]]
 
@@ -482,6 +549,15 @@ def boundary_cases(rng, keys):
     for kd in range(4):
         yield {'op': 'mdp', 'secret': sec(), 'd': ['m', kd, []]}
         yield {'op': 'mdp', 'secret': None, 'd': ['m', kd, [[['s', 'password'], ['s', 'x']], [['s', 'k'], ['m', kd, [[['s', 'token'], ['i', 1]]]]]]]}
+    # DAG-shaped arguments (one object reachable several times), also after earlier calls with other secrets
+    for c in dag_boundary(rng, keys):
+        yield dict(c, op='mdp', secret=sec())
+    for i, c in enumerate(dag_boundary(rng, keys)):
+        if i % 3 == 0: yield dict(c, op='mdp', secret=None, pre=['???'])
+    d3 = ['m', 0, [[['s', 'user'], ['s', "password='abc' token=xyz"]], [['s', 'n'], ['m', 3, [[['s', 'note'], ['s', '--password abc']]]]]]]
+    for a, b in (('***', '???'), ('???', '***'), ('X', ''), ('', 'X')):
+        yield {'op': 'mdp', 'secret': b, 'pre': [a], 'd': d3}
+        yield {'op': 'mdp', 'secret': b, 'pre': [a, b, a], 'd': d3}
     # every sanitize key x case variant x position, alone in a dict, against every kind of value
     for k in keys:
         for cv in case_variants(rng, k):
@@ -507,9 +583,16 @@ def gen_cases(rng, tier):
     for i in range(n):
         r = rng.random()
         secret = None if rng.random() < 0.12 else rng.choice(SECRETS)
-        if r < 0.55:
+        if r < 0.12:
+            c = dag_case(rng, keys)
+            c.update(op='mdp', secret=secret)
+            if rng.random() < 0.3: c['pre'] = [rng.choice(SECRETS) for _ in range(rng.randint(1, 2))]
+            yield c
+        elif r < 0.55:
             big = tier != 'quick' and rng.random() < 0.05
-            yield {'op': 'mdp', 'secret': secret, 'd': mapping(rng, keys, 1, 6 if big else 4, 8 if big else 5)}
+            c = {'op': 'mdp', 'secret': secret, 'd': mapping(rng, keys, 1, 6 if big else 4, 8 if big else 5)}
+            if rng.random() < 0.1: c['pre'] = [rng.choice(SECRETS) for _ in range(rng.randint(1, 2))]
+            yield c
         elif r < 0.62:
             yield {'op': 'mdp', 'secret': secret, 'd': chain(rng, keys, rng.randint(1, 4), str_key(rng, keys), rng.choice(VALUE_SAMPLES))}
         elif r < 0.66:
@@ -526,7 +609,9 @@ RULE = ('every sanitize key (35 of the property reading + whatever the module li
         'under secret keys; random mappings depth <= 4 width <= 5 (thorough: 5% up to depth 6 width 8) over dict/OrderedDict/MappingProxyType/read-only Mapping, '
         'keys str (embedded keys, near-misses, Kelvin sign / dotted I / long s / sharp s / sigma / fullwidth / Cyrillic) or int/tuple/bytes/None/float, '
         'values str (12 secret-bearing shapes and plain), bytes, numbers incl. nan/inf, None, bool, lists/tuples (also holding dicts), mappings; '
-        'non-mapping arguments; secrets incl. empty, non-ASCII, default; key-test stream; distinct = distinct case JSON')
+        'non-mapping arguments; secrets incl. empty, non-ASCII, default; DAG-shaped arguments (one mapping object — every kind, empty and not — or one list/str '
+        'referenced 2-3 times at one level and across depths, shared mappings holding shared mappings); repeated calls on one argument object with '
+        'different secrets before the observed call; key-test stream; distinct = distinct case JSON')
 LEVEL_TEXT = ('Proved for nested mappings of any depth and width (no bound): the result satisfies the four-rule relation Masked (mapping -> recursed whatever '
               'the key; non-mapping under a secret str key -> the mask; other str -> mask_password; anything else unchanged), Masked is functional, the keys '
               'are the same in the same order at every level and every rebuilt container is a dict, a mapping under a secret key is recursed into, a '
@@ -542,7 +627,10 @@ TRUSTED = ['mask_password is abstract in the theorems (Section variable, total s
            'the oracle calls the real function for rule 3',
            'str.lower() = Base/Str.py_lower (per-code-point table regenerated from the running CPython); the context-sensitive final-sigma rule is not '
            'modelled and proved irrelevant for key lists without sigma (C08_final_sigma_irrelevant)']
-ASSUMPTIONS = ['"never modifies its argument" / "new dict": aliasing facts, checked by the harness only (snapshot with object identities before and after; '
+ASSUMPTIONS = ['the functional model has no object identity: an argument in which one object is reachable several times (a DAG) is encoded for the model as '
+               'the tree it denotes; the implementation is run on the real shared objects, and the two occurrences in the result may or may not be one object '
+               '(neither is demanded)',
+               '"never modifies its argument" / "new dict": aliasing facts, checked by the harness only (snapshot with object identities before and after; '
                'identity-disjointness of result and argument mappings) — not a Coq theorem',
                'mappings have pairwise distinct keys at every level (hypothesis wf of the theorems; true of every dict / Mapping built by the harness)',
                'secrets are str without backslashes (a backslash makes mask_password\'s own re template raise; such cases give no verdict)',
